@@ -262,6 +262,21 @@ pub fn family_px() -> Vec<Scenario> {
     out
 }
 
+/// PXd: PX in which the first default-pool step writes a depfile n2 cannot
+/// parse: its command succeeds, n2 turns the step into a failure after the
+/// process is gone (a second way out of the Running state).
+pub fn family_pxd() -> Vec<Scenario> {
+    let mut out = Vec::new();
+    for mut s in family_px() {
+        let Some(st) = s.project.steps.iter_mut().find(|st| st.outs[0] == "d0") else { continue };
+        st.depfile = Some("d0.d".into());
+        s.raw_depfile.insert("d0".into(), "garbage text without a colon\n".into());
+        s.note = format!("{} bad-depfile", s.note);
+        out.push(s);
+    }
+    out
+}
+
 /// D: prebuilt trees, every edit vector (per source: none / touch / mtime
 /// only; per output: keep / remove one), with and without restat-like
 /// commands.
